@@ -135,12 +135,25 @@ def chains_by_name(us, specs, prefix='hist-chain'):
         for n in names:
             opt = n.startswith('?')
             n = n[1:] if opt else n
-            if n not in by:
+            u_ = by.get(n)
+            if u_ is None:
+                # not an exact name: a regular expression (unit names may depend on the run's seed); first match in
+                # unit order that this chain has not used yet, else first match
+                import re as _re
+                try:
+                    rx = _re.compile(n)
+                except _re.error:
+                    rx = None
+                cands = [x for x in us if rx is not None and rx.fullmatch(x.name)]
+                fresh_ = [x for x in cands if x not in sel]
+                u_ = (fresh_ or cands or [None])[0]
+            if u_ is None:
                 if opt:
                     skip = True
                     break
-                raise KeyError('history chain: no unit named %r' % n)
-            sel.append(by[n])
+                raise KeyError('history chain: no unit named / matching %r' % n)
+            sel.append(u_)
+        shown = [x.name for x in sel] if not skip else shown
         if skip:
             continue
         out.append(chain('%s-%d-%s' % (prefix, k, '+'.join(shown if len(set(shown)) > 1 else shown[:1])[:120]), sel))
